@@ -5,6 +5,17 @@ SOLVER = os.environ.get("C13_SOLVER", "cadical")
 
 # known-finding defines in force (see findings/*.md); each blocks exactly the described input class
 KF = {
+    "KF_DNS_NAME_END": "dns_msg_sequence_of_labels_get_name_len / 2name: name walk that reaches the end of the message",
+    "KF_DNS_SEQ_END": "SequenceOfLabelsGetSize / ToDomainName: label sequence that reaches the end of the buffer",
+    "KF_DNS_RR_RDLENGTH": "dns_msg_rr_get_data: rdlength read before the RR header is known to be inside the message",
+    "KF_RADIUS_CHK_SHORT": "radius_pkt_chk: fewer than 4 bytes received",
+    "KF_RADIUS_ATTR_OFF_END": "radius_pkt_attr_get_from_offset: offset in the last two bytes of the packet",
+    "KF_HTTP_SKIP_SPWSP_END": "skip_spwsp / skip_spwsp2: nothing but SP/WSP up to the end of the buffer",
+    "KF_HTTP_HDR_REMOVE_END": "http_hdr_val_remove: name match that ends at the end of the block",
+    "KF_HTTP_URL_DECODE_PCT_END": "http_url_decode: '%' in the last two bytes",
+    "KF_HTTP_CHUNKED_SIZE_WRAP": "http_data_decode_chunked: chunk size that wraps the pointer",
+    "KF_SDP_TYPE_GET_END": "sdp_msg_type_get: CRLF in the last three bytes / message shorter than 2 bytes",
+    "KF_TS_AF_LEN": "mpeg2_ts_pkt_is_valid: adaptation field that reaches the end of the packet on a PSI PID",
 }
 
 META = {
@@ -45,16 +56,16 @@ def dns_jobs(tier, out):
     for L in ([0, 11, 12, 13, 14, 15] if q else [0, 11, 12, 13, 14, 15, 16, 17]):
         area = max(L - 12, 0)
         it = 8 if area < 4 else 66 * (1 + area // 2) + 4
-        J(out, "dns-name-len-L%d" % L, "dns.c", {"T": 1, "LEN": L},
+        J(out, "dns-name-len-L%d" % L, "dns.c", {"T": 1, "LEN": L, "REFSTEPS": it},
           "message %d bytes, any offset" % L, "dns_msg_sequence_of_labels_get_name_len: in-bounds reads, result codes",
-          unwind=4, unwindset=["dns_msg_sequence_of_labels_get_name_len.0:%d" % it, "ref_walk_leaves_msg.0:%d" % (64 * (L + 1) + 3)],
+          unwind=4, unwindset=["dns_msg_sequence_of_labels_get_name_len.0:%d" % it, "ref_walk_leaves_msg.0:%d" % (it + 1)],
           kfs=NAMEKF, cost=it)
         for nb in ([1, 4] if q else [1, 2, 4, 8]):
             it2 = 8 if area < 4 else 66 + nb + 4
-            J(out, "dns-2name-L%d-B%d" % (L, nb), "dns.c", {"T": 2, "LEN": L, "NBUF": nb},
+            J(out, "dns-2name-L%d-B%d" % (L, nb), "dns.c", {"T": 2, "LEN": L, "NBUF": nb, "REFSTEPS": it2},
               "message %d bytes, name buffer %d bytes, any offset" % (L, nb),
               "dns_msg_sequence_of_labels2name: in-bounds reads/writes, NUL, reported length",
-              unwind=4, unwindset=["dns_msg_sequence_of_labels2name.0:%d" % it2, "ref_walk_leaves_msg.0:%d" % (64 * (L + 1) + 3)],
+              unwind=4, unwindset=["dns_msg_sequence_of_labels2name.0:%d" % it2, "ref_walk_leaves_msg.0:%d" % (it2 + 1)],
               kfs=NAMEKF, cost=it2)
     for L in ([0, 1, 2, 3, 5] if q else range(0, 9)):
         J(out, "dns-seqsize-L%d" % L, "dns.c", {"T": 3, "LEN": L}, "label sequence buffer %d bytes" % L,
@@ -63,25 +74,32 @@ def dns_jobs(tier, out):
             J(out, "dns-seq2name-L%d-B%d" % (L, nb), "dns.c", {"T": 4, "LEN": L, "NBUF": nb},
               "label sequence buffer %d bytes, name buffer %d" % (L, nb),
               "SequenceOfLabelsToDomainName: in-bounds reads/writes", unwind=L + 3, kfs=NAMEKF)
-    for L in ([12, 16, 17, 19] if q else [0, 11, 12, 13, 16, 17, 18, 19, 20]):
-        J(out, "dns-question-L%d" % L, "dns.c", {"T": 5, "LEN": L, "NBUF": 4}, "message %d bytes, name buffer 4, any offset" % L,
-          "dns_msg_question_get_data: span inside the message, name terminated", unwind=L + 3,
-          unwindset=["dns_msg_sequence_of_labels2name.0:80", "ref_walk_leaves_msg.0:%d" % (64 * (L + 1) + 3)], kfs=NAMEKF, cost=80)
-    for L in ([12, 22, 23, 25] if q else [0, 11, 12, 13, 21, 22, 23, 24, 25, 26]):
-        J(out, "dns-rr-L%d" % L, "dns.c", {"T": 6, "LEN": L, "NBUF": 4}, "message %d bytes, name buffer 4, any offset" % L,
-          "dns_msg_rr_get_data: span, RDATA pointer/length inside the message", unwind=L + 3,
-          unwindset=["dns_msg_sequence_of_labels2name.0:80", "ref_walk_leaves_msg.0:%d" % (64 * (L + 1) + 3)],
-          kfs=NAMEKF + ("KF_DNS_RR_RDLENGTH",), cost=80)
-    for L in ([24] if q else [23, 24, 35]):
-        J(out, "dns-rrfind-L%d" % L, "dns.c", {"T": 7, "LEN": L}, "message %d bytes, any offset/count, name <= 4 bytes" % L,
-          "dns_msg_rr_find: found RR inside the message", unwind=L + 3,
-          unwindset=["dns_msg_sequence_of_labels2name.0:80", "dns_msg_rr_find.0:%d" % ((L - 12) // 11 + 2),
-                     "ref_walk_leaves_msg.0:%d" % (64 * (L + 1) + 3)],
-          kfs=NAMEKF + ("KF_DNS_RR_RDLENGTH",), cost=100)
+    # question / RR extraction call the name expander; a compression cycle needs two pointers inside the message, which a
+    # question (RR) that passes the span check can only have from 18 (24) bytes on: below that the walk is short
+    def nm_us(L, cyc, extra=()):
+        it = 70 if L >= cyc else 8
+        return it, ["dns_msg_sequence_of_labels2name.0:%d" % it, "ref_walk_leaves_msg.0:%d" % (it + 1),
+                    "SequenceOfLabelsGetSize.0:%d" % (max(L - 12, 0) + 2), "ref_seq_leaves_buf.0:%d" % (L + 3)] + list(extra)
+    for L in ([12, 16, 17] if q else [0, 11, 12, 13, 16, 17, 18, 19, 20]):
+        it, us = nm_us(L, 18)
+        J(out, "dns-question-L%d" % L, "dns.c", {"T": 5, "LEN": L, "NBUF": 4, "REFSTEPS": it}, "message %d bytes, name buffer 4, any offset" % L,
+          "dns_msg_question_get_data: span inside the message, name terminated", unwind=4, unwindset=us, kfs=NAMEKF, cost=it)
+    for L in ([12, 22, 23] if q else [0, 11, 12, 13, 21, 22, 23, 24, 25, 26]):
+        it, us = nm_us(L, 24)
+        J(out, "dns-rr-L%d" % L, "dns.c", {"T": 6, "LEN": L, "NBUF": 4, "REFSTEPS": it}, "message %d bytes, name buffer 4, any offset" % L,
+          "dns_msg_rr_get_data: span, RDATA pointer/length inside the message", unwind=4, unwindset=us,
+          kfs=NAMEKF + ("KF_DNS_RR_RDLENGTH",), cost=it)
+    for L in ([23] if q else [22, 23, 24, 35]):
+        it, us = nm_us(L, 24, ["dns_msg_rr_find.0:%d" % ((L - 12) // 11 + 2), "strncasecmp.0:6"])
+        J(out, "dns-rrfind-L%d" % L, "dns.c", {"T": 7, "LEN": L, "REFSTEPS": it}, "message %d bytes, any offset/count, name <= 4 bytes" % L,
+          "dns_msg_rr_find: found RR inside the message", unwind=4, unwindset=us,
+          kfs=NAMEKF + ("KF_DNS_RR_RDLENGTH",), cost=it * 2)
     for L in ([0, 11, 12, 17, 23, 28] if q else [0, 11, 12, 13, 17, 18, 22, 23, 24, 28, 29, 34]):
-        n = (L // 5) + 2
+        a = max(L - 12, 0)
+        us = ["dns_msg_info_get.0:%d" % (a // 5 + 2), "dns_msg_info_get.1:%d" % (a // 11 + 2), "dns_msg_info_get.2:%d" % (a // 11 + 2),
+              "dns_msg_info_get.3:%d" % (a // 11 + 2), "SequenceOfLabelsGetSize.0:%d" % (a + 2), "ref_seq_leaves_buf.0:%d" % (L + 3)]
         J(out, "dns-info-L%d" % L, "dns.c", {"T": 8, "LEN": L}, "message %d bytes, all header counts" % L,
-          "dns_msg_info_get/validate/size_get: section offsets ordered and inside the message", unwind=n + L,
+          "dns_msg_info_get/validate/size_get: section offsets ordered and inside the message", unwind=4, unwindset=us,
           kfs=NAMEKF + ("KF_DNS_RR_RDLENGTH",), cost=50)
 
 
